@@ -227,25 +227,26 @@ def apaths(prog: Program, ctx: Optional[str], func: FuncInfo, anchors=OPAQUE, **
     return paths(prog, ctx, func, inline="deep", opaque=anchors, **kw)
 
 
-def unclamped(v):
-    """the value under its saturation: min(K, x) / max(K, x) with a constant K (either argument order, nested), and the
+def unclamped(v, bounds=None):
+    """the value under its saturation (when `bounds` is given: only under saturation at exactly those documented limits - a clamp
+    at any other constant changes the value and is kept): min(K, x) / max(K, x) with a constant K (either argument order, nested), and the
     conditional spelling (K if x > K else x), are read as x.  Whether the bounds are the right ones is C16's obligation;
     rules that ask 'by how much does this move' look at the value before saturation."""
     from .expr import is_num_const
     while True:
         if v[0] == "call" and v[1] in (("g", "min"), ("g", "max")) and len(v[2]) == 2 and not v[3]:
             a, b = v[2]
-            if is_num_const(a) and not is_num_const(b):
+            if is_num_const(a) and not is_num_const(b) and (bounds is None or a[1] in bounds):
                 v = b
                 continue
-            if is_num_const(b) and not is_num_const(a):
+            if is_num_const(b) and not is_num_const(a) and (bounds is None or b[1] in bounds):
                 v = a
                 continue
         if v[0] == "phi" and v[1][0] == "cmp" and v[1][1] in ("<", "<=", ">", ">="):
             x, k = v[1][2], v[1][3]
             if is_num_const(x):
                 x, k = k, x
-            if is_num_const(k) and {v[2], v[3]} == {x, k}:
+            if is_num_const(k) and {v[2], v[3]} == {x, k} and (bounds is None or k[1] in bounds):
                 v = x
                 continue
         return v
